@@ -215,13 +215,13 @@ def theorem_names(vfile):
     return re.findall(r"^\s*(?:Theorem|Lemma|Corollary|Example)\s+([\w']+)", txt, re.M)
 
 
-def prove_property(pid, pre_steps=(), timeout=1800):
+def prove_property(pid, pre_steps=(), timeout=1800, newer_than=0.0):
     """Compile (always) coq/Properties/<pid>.v in the per-run directory after `pre_steps`
     (generated files / reflection instances).  Returns a dict for Ctx.record_proof plus
     `results` (per-file) and `failed` (first failing step or None)."""
     rel = "Properties/%s.v" % pid
     steps = list(pre_steps) + [(rel, None)]
-    res = build_dynamic(steps, timeout=timeout, always=(rel,))
+    res = build_dynamic(steps, timeout=timeout, always=(rel,), newer_than=newer_than)
     ff = first_failure(res)
     names = theorem_names(os.path.join(COQ, rel))
     last = res[-1]
@@ -509,9 +509,15 @@ def write_if_changed(path, text):
     return True
 
 
+STATIC_TARGETS = None  # set by check.py to the property's STATIC list (.vo targets)
+
+
 def newest_static_vo():
+    """newest compiled static file this property depends on (a rebuilt dependency also rebuilds
+    the target, so the targets' own mtimes suffice)"""
     m = 0.0
-    for rel in static_files():
+    rels = [r[:-1] for r in STATIC_TARGETS] if STATIC_TARGETS else static_files()
+    for rel in rels:
         p = os.path.join(COQ, rel[:-2] + ".vo")
         if os.path.exists(p):
             m = max(m, os.path.getmtime(p))
@@ -531,7 +537,18 @@ def dyn_flags():
     return [(dyn_dir(), "MVD")]
 
 
-def build_dynamic(steps, timeout=1800, always=()):
+def dyn_vo_mtime(rels):
+    """max mtime of the compiled per-run files `rels` (0 if one is missing -> forces rebuild)"""
+    m = 0.0
+    for rel in rels:
+        vo = os.path.join(dyn_dir(), rel[:-2] + ".vo")
+        if not os.path.exists(vo):
+            return float("inf")
+        m = max(m, os.path.getmtime(vo))
+    return m
+
+
+def build_dynamic(steps, timeout=1800, always=(), newer_than=0.0):
     """steps: list of (relative .v path, text or None).  With text=None the source is copied
     from coq/<relpath> (hand-written per-run files: Reflect/*Inst.v, Properties/*.v); otherwise
     `text` is the generated source.  Files are compiled in order inside dyn_dir() under logical
@@ -543,7 +560,7 @@ def build_dynamic(steps, timeout=1800, always=()):
     d = dyn_dir()
     with lock("dyn-" + os.path.basename(d)):
         dirty = False
-        stat = newest_static_vo()
+        stat = max(newest_static_vo(), newer_than)
         for rel, text in steps:
             p = os.path.join(d, rel)
             if text is None:
@@ -568,14 +585,14 @@ def build_dynamic(steps, timeout=1800, always=()):
     return res
 
 
-def build_dynamic_parallel(steps, timeout=1800, jobs=None):
+def build_dynamic_parallel(steps, timeout=1800, jobs=None, newer_than=0.0):
     """Like build_dynamic for a set of mutually independent files (e.g. one generated file per
     space group): all are (re)compiled in parallel when needed.  Returns list of result dicts
     in the order of `steps`."""
     d = dyn_dir()
     out = []
     with lock("dyn-" + os.path.basename(d)):
-        stat = newest_static_vo()
+        stat = max(newest_static_vo(), newer_than)
         todo = []
         for rel, text in steps:
             p = os.path.join(d, rel)
